@@ -227,6 +227,9 @@ func (m *MClaims) BuildLiteral() (psatoken.IClaims, bool) {
 			VSI:                    clonePtr(m.VSI),
 			CanonicalProfile:       P1Name,
 		}
+		if m.ZeroCanon {
+			c.CanonicalProfile = ""
+		}
 		if m.NoMeas != nil {
 			v := uint(*m.NoMeas)
 			c.NoSwMeasurements = &v
@@ -248,6 +251,9 @@ func (m *MClaims) BuildLiteral() (psatoken.IClaims, bool) {
 		SwComponents:           comps,
 		VSI:                    clonePtr(m.VSI),
 		CanonicalProfile:       P2Name,
+	}
+	if m.ZeroCanon {
+		c.CanonicalProfile = ""
 	}
 	if m.Profile != nil {
 		p := eat.Profile{}
